@@ -160,6 +160,9 @@ func (t *Trace) Close() error {
 	return err
 }
 func (t *Trace) RLock() error {
+	// (before anything is locked: what another connection does here happens
+	// before this read transaction)
+	t.emit(Event{"prelock", 0})
 	err := t.P.RLock()
 	if err != nil {
 		t.emit(Event{"lock-failed", 0})
